@@ -119,6 +119,24 @@ func compile(inv execInvocation, slice bigslice.Slice, machineCombiners bool) (t
 	// as they are materialized and will not be used as direct shuffle
 	// dependencies.
 	tasks, err = c.compile(slice, partitioner{})
+	if err != nil {
+		return
+	}
+	// The compiled tasks carry copies of inv that were taken while its
+	// environment was still writable, and it is from these copies that the
+	// invocation is later sent to workers. Compilation is complete, so freeze
+	// them: a worker compiling the invocation must use the view of the
+	// environment (e.g. of the cache) recorded here, not amend it with its
+	// own, or its task graph differs from the driver's.
+	all := make(map[*Task]bool)
+	for _, task := range tasks {
+		task.all(all)
+	}
+	for task := range all {
+		if task.Invocation.Index == inv.Index {
+			task.Invocation.Env.Freeze()
+		}
+	}
 	return
 }
 
